@@ -324,26 +324,33 @@ def method_level(ctx, dis):
                         continue
                     if two_d and prm in ('lam', 'half_window') and isinstance(v, list) and len(v) == 3:
                         pass
-                    kw = dict(kw0)
-                    kw[prm] = v
-                    if name in LAM_OPTIONAL and prm == 'diff_order':
-                        kw['lam'] = 10.0
-                    canon = (dim, name, prm, repr(v))
-                    ctx.count('param:' + prm)
-                    try:
-                        run(two_d, name, x, z, data, kw)
-                        outcome = 'returned'
-                    except (ValueError, TypeError):
-                        outcome = 'rejected'
-                    except Exception as ex:
-                        outcome = 'other:' + type(ex).__name__
-                    ctx.case(canon, nontrivial=True, sample={'method': f'{dim}:{name}', 'parameter': prm, 'value': repr(v), 'outcome': outcome}
-                             if len(ctx.samples) < 4 else None)
-                    if outcome != 'rejected':
-                        nonint = prm in ('half_window', 'max_half_window') and (v == 2.5 or v == 3.5 or v == [2.5, 3])
-                        sig = f'{dim}:{name}:{prm}:' + ('noninteger' if nonint else 'domain')
-                        dis.append(Disagreement('c15.param', sig, f'{dim} {name}({prm}={v!r}) {"returned a baseline" if outcome == "returned" else "raised " + outcome[6:]} '
-                                                f'instead of raising ValueError/TypeError', {'kind': 'param', 'two_d': two_d, 'method': name, 'param': prm, 'value': v}, True))
+                    # the value must be rejected whatever the OTHER arguments are: also when the caller supplies weights (which
+                    # switches set-up code paths in several methods)
+                    for with_w in ((False, True) if ('weights' in e['params'] and name not in M.OPTIMIZERS_1D and name not in M.OPTIMIZERS_2D and not stack) else (False,)):
+                        kw = dict(kw0)
+                        kw[prm] = v
+                        if with_w:
+                            kw['weights'] = np.round(np.random.default_rng(5).uniform(0.3, 1.0, np.shape(data)) * 32) / 32
+                        if name in LAM_OPTIONAL and prm == 'diff_order':
+                            kw['lam'] = 10.0
+                        canon = (dim, name, prm, repr(v), with_w)
+                        ctx.count('param:' + prm)
+                        if with_w:
+                            ctx.count('param-with-user-weights')
+                        try:
+                            run(two_d, name, x, z, data, kw)
+                            outcome = 'returned'
+                        except (ValueError, TypeError):
+                            outcome = 'rejected'
+                        except Exception as ex:
+                            outcome = 'other:' + type(ex).__name__
+                        ctx.case(canon, nontrivial=True, sample={'method': f'{dim}:{name}', 'parameter': prm, 'value': repr(v), 'outcome': outcome}
+                                 if len(ctx.samples) < 4 else None)
+                        if outcome != 'rejected':
+                            nonint = prm in ('half_window', 'max_half_window') and (v == 2.5 or v == 3.5 or v == [2.5, 3])
+                            sig = f'{dim}:{name}:{prm}:' + ('noninteger' if nonint else 'domain') + (':with-weights' if with_w else '')
+                            dis.append(Disagreement('c15.param', sig, f'{dim} {name}({prm}={v!r}{", weights=<array>" if with_w else ""}) {"returned a baseline" if outcome == "returned" else "raised " + outcome[6:]} '
+                                                    f'instead of raising ValueError/TypeError', {'kind': 'param', 'two_d': two_d, 'method': name, 'param': prm, 'value': v, 'with_weights': with_w}, True))
             if xord == 'sorted':
                 forms_and_pairs(ctx, dis, rng, dim, two_d, name, e, kw0, lambda kw: run(two_d, name, x, z, data, kw))
             # ---- non-finite data at any position (default check_finite=True)
@@ -503,6 +510,8 @@ def replay(ctx, data):
         z = None
     kw = M.filter_kwargs(e, M.call_kwargs(r['method'], two_d))
     kw[r['param']] = as_form(r['value'], r.get('form'))
+    if r.get('with_weights'):
+        kw['weights'] = np.round(np.random.default_rng(5).uniform(0.3, 1.0, np.shape(Y)) * 32) / 32
     if r['method'] in LAM_OPTIONAL and r['param'] == 'diff_order':
         kw['lam'] = 10.0
     data_ = np.array([Y, Y * 1.1]) if r['method'] == 'collab_pls' else Y
